@@ -443,6 +443,18 @@ fn main() {
             }
         }
     }
+    // scale probes: longer sources under the constant-ratio plans
+    for fmt in ["f64", "[i16;2]"] {
+        for lin in [false, true] {
+            for len in [20usize, 50] {
+                for (pi, p) in plans.iter().enumerate() {
+                    if matches!(p, Plan::Const(_, 0)) {
+                        cases.push((fmt, lin, len, false, pi));
+                    }
+                }
+            }
+        }
+    }
     let evals = AtomicU64::new(0);
     guard::set_hang_secs(120);
     cases.par_iter().for_each(|&(fmt, lin, len, alt, pi)| {
